@@ -1049,6 +1049,8 @@ fn harden(gn: &mut Gen, thorough: bool) {
     edge_of_range(gn, thorough);
     mixed_extremes(gn, thorough);
     sparsity(gn, thorough);
+    block_boundaries(gn, thorough);
+    resonant(gn, thorough);
 }
 
 /// SPARSITY PATTERNS (fifth seeded round): matrices whose EXACT ZEROS follow a pattern an "optimised" elimination could
@@ -1623,5 +1625,227 @@ fn tiny_times_huge(gn: &mut Gen, thorough: bool) {
             .map(|i| (0..n).filter(|j| if back { *j >= i } else { *j <= i }).map(|j| v[i * n + j] * x[j]).sum())
             .collect();
         emit_subst(gn, back, &Grid { h: n, w: n, v }, n, &b, n);
+    }
+}
+
+/// random permutation of 0..n
+fn perm_of(rng: &mut Rng, n: usize) -> Vec<usize> {
+    let mut p: Vec<usize> = (0..n).collect();
+    for i in (1..n).rev() {
+        let j = rng.below(i as u64 + 1) as usize;
+        p.swap(i, j);
+    }
+    p
+}
+
+/// small-integer, NON-symmetric, strictly row-dominant matrix (every entry and every sum exact in binary64)
+fn int_dominant(rng: &mut Rng, n: usize) -> Vec<f64> {
+    let mut v: Vec<f64> = (0..n * n).map(|_| rng.range(-2, 2) as f64).collect();
+    for i in 0..n {
+        let off: f64 = (0..n).filter(|j| *j != i).map(|j| v[i * n + j].abs()).sum();
+        v[i * n + i] = (off + 1.0 + rng.below(3) as f64) * sign(rng);
+    }
+    v
+}
+
+fn times(v: &[f64], n: usize, x: &[f64]) -> Vec<f64> {
+    (0..n).map(|i| (0..n).map(|j| v[i * n + j] * x[j]).sum()).collect()
+}
+
+/// BLOCK BOUNDARIES (sixth seeded round, category O): a blocked / panelled / unrolled elimination, pivot search, scale-factor
+/// loop or substitution changes behaviour exactly when the order passes 16, 32, 64, 128, 256: every order blk-1, blk, blk+1,
+/// blk+2, 2 blk+1 with non-constant, non-symmetric data: exact small-integer dominant systems with integer unknowns (b = A x
+/// exactly), the same with permuted and power-of-two-scaled rows (a row exchange at every step, across blocks), real dense
+/// systems, exactly singular ones (repeated row / zero column in different blocks), triangular solves (full and leading
+/// sub-system of exactly the block size).  Judged by the plug-in's backward-error and singularity clauses; above order 24 the
+/// exact |L||U| form is not evaluated (clause 1 with |A| only).
+fn block_boundaries(gn: &mut Gen, thorough: bool) {
+    for &blk in &[16usize, 32, 64, 128, 256] {
+        for n in [blk - 1, blk, blk + 1, blk + 2, 2 * blk + 1] {
+            if n > 258 || (n > 130 && !thorough) {
+                continue;
+            }
+            // exact integer system, unknowns -3..3 (non-constant)
+            let v = int_dominant(&mut gn.rng, n);
+            let x: Vec<f64> = (0..n).map(|i| ((i * 5 + 1) % 7) as f64 - 3.0).collect();
+            let b = times(&v, n, &x);
+            gn.gauss(&Grid { h: n, w: n, v: v.clone() }, &b, 1e-12);
+            if n > 66 && !thorough {
+                // quick tier: the exact integer system only at the orders 127..130 (255..258 in the thorough tier)
+                continue;
+            }
+            // rows permuted and scaled by powers of two: a row exchange at (nearly) every step
+            let p = perm_of(&mut gn.rng, n);
+            let mut pv = vec![0.0; n * n];
+            let mut pb = vec![0.0; n];
+            for i in 0..n {
+                let s = pow2(gn.rng.range(-8, 8));
+                for j in 0..n {
+                    pv[i * n + j] = v[p[i] * n + j] * s;
+                }
+                pb[i] = b[p[i]] * s;
+            }
+            gn.gauss(&Grid { h: n, w: n, v: pv }, &pb, 1e-9);
+            // real dense
+            if n <= 130 {
+                let v = dense(&mut gn.rng, n);
+                let mut g = Grid { h: n, w: n, v };
+                let mut b = gn.rhs(n);
+                gn.scaled_rows(&mut g, &mut b, 20);
+                gn.gauss(&g, &b, 1e-12);
+            }
+            // exactly singular, sparse (cheap to certify exactly at every order): permuted bidiagonal with a repeated row or a
+            // zero column placed next to the block boundary
+            {
+                let mut v = vec![0.0; n * n];
+                for i in 0..n {
+                    v[i * n + i] = (1 + (i % 3)) as f64 * if i % 2 == 0 { 1.0 } else { -1.0 };
+                    if i + 1 < n {
+                        v[i * n + i + 1] = (1 + (i % 2)) as f64;
+                    }
+                    if i >= 2 {
+                        v[i * n] = ((i % 3) as f64) - 1.0;
+                    }
+                }
+                // the regular matrix itself, rows permuted: the only admissible pivot of a column may sit in any block
+                {
+                    let p = perm_of(&mut gn.rng, n);
+                    let mut pv = vec![0.0; n * n];
+                    for i in 0..n {
+                        for j in 0..n {
+                            pv[i * n + j] = v[p[i] * n + j];
+                        }
+                    }
+                    let x: Vec<f64> = (0..n).map(|i| ((i * 3 + 2) % 5) as f64 - 2.0).collect();
+                    let b = times(&pv, n, &x);
+                    gn.gauss(&Grid { h: n, w: n, v: pv }, &b, 1e-12);
+                }
+                let r = (blk - 1).min(n - 2);
+                if n % 2 == 0 {
+                    for j in 0..n {
+                        v[r * n + j] = v[(r + 1) * n + j];
+                    }
+                } else {
+                    for i in 0..n {
+                        v[i * n + r] = 0.0;
+                    }
+                }
+                let p = perm_of(&mut gn.rng, n);
+                let mut pv = vec![0.0; n * n];
+                for i in 0..n {
+                    for j in 0..n {
+                        pv[i * n + j] = v[p[i] * n + j];
+                    }
+                }
+                let b = small_rhs(&mut gn.rng, n);
+                gn.gauss(&Grid { h: n, w: n, v: pv }, &b, 1e-9);
+            }
+            // exactly singular, dense small integers: a repeated row, the two copies in different blocks
+            if n <= 34 || (thorough && n <= 66) {
+                let mut v: Vec<f64> = (0..n * n).map(|_| gn.rng.range(-2, 2) as f64).collect();
+                let (i, j) = (blk - 2, n - 1);
+                for c in 0..n {
+                    v[i * n + c] = 2.0 * v[j * n + c];
+                }
+                let b = small_rhs(&mut gn.rng, n);
+                gn.gauss(&Grid { h: n, w: n, v }, &b, 1e-12);
+            }
+            // triangular solves of the order, and the leading sub-system of exactly the block size inside it
+            for back in [true, false] {
+                let mut v = vec![0.0; n * n];
+                for i in 0..n {
+                    for j in 0..n {
+                        let in_tri = if back { j >= i } else { j <= i };
+                        v[i * n + j] = if i == j { gn.rng.uniform(0.5, 2.0) * sign(&mut gn.rng) } else if in_tri { gn.rng.uniform(-1.0, 1.0) / n as f64 } else { f64::NAN };
+                    }
+                }
+                let b = gn.rhs(n);
+                let g = Grid { h: n, w: n, v };
+                emit_subst(gn, back, &g, n, &b, n);
+                if n > blk && n < 2 * blk {
+                    emit_subst(gn, back, &g, blk, &b[..blk], blk);
+                }
+            }
+        }
+    }
+}
+
+/// RESONANT / EXACT-RELATION DATA (sixth seeded round, category P): A = P L0 U0 in small integers / dyadics so that every
+/// elimination step is exact: multipliers exactly +-1, +-2, +-1/2 or 0, entries exactly equal to l*u so that an update
+/// cancels to exactly 0 (U0 with exact zeros above the diagonal, also a zero LAST pivot = exactly singular), a pivot exactly
+/// equal to the tolerance - and the same relations missed by one ulp, 2^-50, 2^-40, 2^-30 relative in one entry.  Unknowns
+/// are small integers (b = A x exactly for the unperturbed matrix).
+fn resonant(gn: &mut Gen, thorough: bool) {
+    let reps = if thorough { 10 } else { 1 };
+    for k in 0..600 * reps {
+        let n = gn.rng.range(2, 8) as usize;
+        let mut l0 = vec![0.0; n * n];
+        let mut u0 = vec![0.0; n * n];
+        let singular = k % 6 == 5;
+        for i in 0..n {
+            for j in 0..n {
+                if i == j {
+                    l0[i * n + j] = 1.0;
+                    u0[i * n + j] = *gn.rng.pick(&[-4.0, -2.0, -1.0, 1.0, 2.0, 4.0]);
+                } else if i > j {
+                    l0[i * n + j] = *gn.rng.pick(&[-1.0, 1.0, 0.0, -1.0, 1.0, 0.5, -0.5, 2.0, -2.0]);
+                } else {
+                    u0[i * n + j] = if gn.rng.chance(1, 3) { 0.0 } else { gn.rng.range(-3, 3) as f64 };
+                }
+            }
+        }
+        if singular {
+            let z = if gn.rng.chance(1, 2) { n - 1 } else { gn.rng.below(n as u64) as usize };
+            u0[z * n + z] = 0.0;
+        }
+        let p = perm_of(&mut gn.rng, n);
+        let mut v = vec![0.0; n * n];
+        for i in 0..n {
+            for j in 0..n {
+                v[p[i] * n + j] = (0..n).map(|t| l0[i * n + t] * u0[t * n + j]).sum();
+            }
+        }
+        let x: Vec<f64> = (0..n).map(|_| gn.rng.range(-3, 3) as f64).collect();
+        let mut b = times(&v, n, &x);
+        if k % 4 == 3 {
+            b = small_rhs(&mut gn.rng, n);
+        }
+        // the relation missed by a little, in one entry (every second instance)
+        match k % 10 {
+            1 | 6 => {
+                let t = gn.rng.below((n * n) as u64) as usize;
+                let e = v[t];
+                let d = *gn.rng.pick(&[f64::EPSILON, -f64::EPSILON / 2.0, pow2(-50), -pow2(-40), pow2(-40), pow2(-30), -pow2(-45)]);
+                v[t] = if e == 0.0 { d } else { e * (1.0 + d) };
+            }
+            3 => {
+                // rows scaled by powers of two: every relation stays exact
+                let mut g = Grid { h: n, w: n, v };
+                gn.scaled_rows(&mut g, &mut b, 40);
+                v = g.v;
+            }
+            _ => {}
+        }
+        let tol = *gn.rng.pick(&[1e-12, 1e-9, 1e-12, 1e-6]);
+        gn.gauss(&Grid { h: n, w: n, v }, &b, tol);
+    }
+    // a scaled pivot exactly equal to the tolerance after an exact cancellation, n = 3..6: the last pivot of
+    // diag-dominant-free integer data is t * scale exactly (dyadic t), one ulp below and above
+    for n in 3..=6usize {
+        for e in [-10i64, -20, -30, -39] {
+            let t = pow2(e);
+            for tt in [t, t * (1.0 + f64::EPSILON), t * (1.0 - f64::EPSILON / 2.0)] {
+                // A = L0 U0, L0 unit lower with l = 1 in the first column, U0 = 2 I + e_0 ones^T, last pivot replaced by 2 t
+                let mut v = vec![0.0; n * n];
+                for i in 0..n {
+                    for j in 0..n {
+                        let u_ij = |a: usize, c: usize| if a == c { if a == n - 1 { 2.0 * t } else { 2.0 } } else if a == 0 { 1.0 } else { 0.0 };
+                        v[i * n + j] = u_ij(i, j) + if i > 0 { 0.5 * u_ij(0, j) } else { 0.0 };
+                    }
+                }
+                let b: Vec<f64> = (0..n).map(|i| (i % 3) as f64 - 1.0).collect();
+                gn.gauss(&Grid { h: n, w: n, v }, &b, tt);
+            }
+        }
     }
 }
